@@ -85,7 +85,7 @@ def run(prog: Program, res: Result) -> None:
                     res.add(Finding(P, "C05.R3-fcn-only-in-init-agent", key, loc,
                                     f"`_fcn` is referenced outside OptimizationAbstract._init_agent (in {q})"))
     res.floor("R1.objective_function-refs", 1)
-    res.floor("R2.solve-refs", 2)
+    res.floor("R2.solve-refs", 1)
     res.floor("R3._fcn-refs", 1)
 
     # nobody redefines the chain
